@@ -106,6 +106,22 @@ def other_amount_control(e, g):
     return alts[:3] or None
 
 
+C04_NEED = ["Execute/ok", "Execute/approved", "Deliver/ok", "Deliver/is_receive_from_hub", "Deliver/hub_chain", "Deliver/hub_address",
+            "Deliver/decodes", "Deliver/origin_trusted", "Deliver/recipient_decodes", "Deliver/registered", "Deliver/already_deployed",
+            "Deliver/metadata", "Deliver/minter_decodes", "Deliver/receiver_ok", "Deliver/custody", "SetTrusted/ok", "RemoveTrusted/ok"]
+
+
+def conforming_delivery_control(e, g):
+    """C04: the plain conforming transfer delivered under a fresh id in the same state"""
+    a = e['act']
+    if not e['exp']['ok'] or a['name'] not in ('Execute', 'Deliver'):
+        return None
+    ctl = {"name": "Deliver", "payload": "p_tx", "srcChain": "axelar", "srcAddr": "hub"}
+    if a == ctl:
+        return None
+    return [ctl]
+
+
 PROPS = {
     "C02": {
         "title": "Each message is approved once and executed once, only by its destination",
@@ -316,6 +332,22 @@ PROPS = {
         "level_text": "TLC proves write-once registry, roles after every deployment (service + designated minter only, initial supply credited, metadata as requested), 'taken ids refuse' and service-mintability on every transition of a finite instance (every supply x minter combination, boundary metadata, same salt / other deployer, canonical registrations, remote deploy messages that collide or not, an inbound transfer after every deployment); transitions are executed against the real service, which deploys the repository's pinned interchain_token.wasm; the binding derives every catalogue id through the contract, checks determinism, injectivity and chain-name sensitivity, that token_address(id) is the address derived from (service, id) and that the token reports that id.",
         "rule": "cases = transitions of the bounded TLC instance replayed against the contracts; distinct = distinct (abstract pre-state, action) pairs",
         "assumptions": ["soroban-env-host test mode implements on-chain semantics", "service-deployed tokens run the pinned interchain_token.wasm (no wasm32 target offline)", "bounds: 3 local ids, 2 canonical tokens, 1 remote id"],
+    },
+    "C04": {
+        "title": "ITS acts only on approved, well-formed hub messages from trusted chains",
+        "policy": {"guards": ["approved", "is_receive_from_hub", "hub_chain", "hub_address", "decodes", "origin_trusted",
+                              "recipient_decodes", "registered", "already_deployed", "metadata", "minter_decodes", "custody", "receiver_ok"],
+                   "fields": [], "act_fields": {"Execute": ["*"], "Deliver": ["*"]},
+                   "events": ["delivery_executed", "transfer_received", "token_executed"], "rets": []},
+        "jobs": [
+            {"kind": "graph", "spec": "MC_C04", "cfg": "MC_C04_small", "tiers": ["quick"], "module": "ITS", "evkinds": ITS_EVENTS,
+             "need": C04_NEED, "control": conforming_delivery_control, "quick_edges": 12000, "max_len": 40, "workers": 16},
+            {"kind": "graph", "spec": "MC_C04", "cfg": "MC_C04_full", "tiers": ["thorough"], "module": "ITS", "evkinds": ITS_EVENTS,
+             "need": C04_NEED, "control": conforming_delivery_control, "max_len": 40, "workers": 16, "tlc_timeout": 3600},
+        ],
+        "level_text": "TLC proves gate (every guard held in the pre-state of an executed delivery), exactly-once, 'rejected deliveries leave balances, registrations and the approval record untouched' and acceptance of conforming deliveries on every transition of a finite instance containing one conforming delivery of each kind and every single deviation the statement lists (approval-table deviations under tracked ids, payload / chain / address deviations under fresh ids), over trusted-chain histories; whether a mutated payload decodes is decided by Abi!Decode.  All transitions are executed against the real service, gateway, tokens and receiver contracts, with payload bytes built by the harness's own encoder.",
+        "rule": "cases = transitions of the bounded TLC instance replayed against the contracts; distinct = distinct (abstract pre-state, action) pairs",
+        "assumptions": ["soroban-env-host test mode implements on-chain semantics", "service-deployed tokens run the pinned interchain_token.wasm", "the harness's own ABI codec is cross-validated against Abi.tla by the C10 check"],
     },
 }
 
